@@ -11,11 +11,12 @@
  "unwind": 4,
  "timeout": 200,
  "replay": false,
- "expects": ["postcondition", "unwind"],
+ "expects": ["postcondition", "division-by-zero", "assertion_verif"],
  "assumes": ["declaratortypes() (the recursive-descent parser of the declarator syntax) is replaced by a stub that appends the derived-type list the harness prepared, in source order, exactly as the real one does for array declarators (listinsert(ptr->prev, ..))",
              "eval() is replaced by the identity on already folded length expressions (constant folding is C04's claim)",
              "util.c listinsert re-stated in the unit (util.c cannot be linked: it defines fatal())",
              "no native replay: the replaced callee is static",
+             "every array derivation carries a length expression (`T a[]` leaves size 0 / incomplete and has no arithmetic); with a symbolic 'has length' flag the length pointer is an if-then-else and the code's and the contract's 64-bit division no longer share a circuit (no result in 200 s)",
              "the no-wrap guard is stated in the code's own form  len <= ULLONG_MAX / elemsize  (plus size == elemsize * len in 64-bit arithmetic); that this is equivalent to 'the mathematical product fits in 64 bits' is an ASSUMED arithmetic lemma: the independent 128-bit formulation does not get through SAT (standalone lemma > 120 s, unit > 200 s in propositional reduction)"]
 }
 */
@@ -24,6 +25,7 @@
  *   product sizeof(T) * n (no 64-bit wrap-around: the `ULLONG_MAX / size` guard), alignment that of T.
  * C10: C11 6.7.6.2p1: element type incomplete or function type => diagnosed; constant length negative => diagnosed;
  *   product not representable => diagnosed ("array length is too large").
+ *   A declarator to which none of these applies is not diagnosed (g_no_error is set from the same conditions).
  * The derived types are processed innermost first: for T a[n][m] the inner array (m) has element T and becomes the
  * element of the outer one (n).
  */
@@ -78,13 +80,19 @@ stub_declaratortypes(struct scope *s, struct list *result, char **name, struct s
 	X(g_n == V_N) \
 	X(base.type == &am_base && base.type->size == g_bsize && base.type->align == g_balign && base.type->incomplete == g_binc && (int)base.type->kind == g_bkind) \
 	X(name != 0 && funcscope == 0) \
-	X(am_arr[0].kind == TYPEARRAY && am_arr[1].kind == TYPEARRAY)
+	X(am_arr[0].kind == TYPEARRAY && am_arr[1].kind == TYPEARRAY) \
+	X(g_no_error == VALID)
 
 /* "elemsize * len is representable": floor((2^64 - 1) / elemsize) >= len.  (The independent formulation
    (unsigned __int128)a * b <= ULLONG_MAX is equivalent but SAT cannot show division and multiplication agree.) */
 #define PROD_OK(a, b)   ((b) <= ULLONG_MAX / (a))
 #define PROD(a, b)      ((a) * (b))
 #define SZ(k)           (am_arr[k].size)
+/* a declarator none of the three diagnostics applies to: it must NOT be rejected (g_no_error) */
+#define LEN_OK(k, esz)  (!g_const[k] || (esz) == 0 || (!(g_signed[k] && (am_len[k].u.constant.u >> 63)) && am_len[k].u.constant.u <= ULLONG_MAX / (esz)))
+#define SZ1_PRE         ((g_const[1] && am_base.size != 0) ? am_base.size * am_len[1].u.constant.u : 0)   /* size the inner array of a[n][m] will get */
+#define VALID           (!g_binc && g_bkind != TYPEFUNC && LEN_OK(INNER, am_base.size) && (V_N == 1 || LEN_OK(0, SZ1_PRE)))
+
 #define POST(X) \
 	/* 6.7.6.2p1 element type */ \
 	X(!g_binc && g_bkind != TYPEFUNC) \
@@ -119,14 +127,13 @@ harness(void)
 	static char *am_namep;
 	IN(u64, in_bsize); IN(int, in_balign); IN(bool, in_binc); IN(int, in_bkind); IN(int, in_bprop); IN(int, in_bqual);
 	IN(u64, in_len0); IN(u64, in_len1); IN(bool, in_const0); IN(bool, in_const1); IN(bool, in_signed0); IN(bool, in_signed1);
-	IN(bool, in_haslen0); IN(bool, in_haslen1);
 	struct scope *s = 0;
 	struct qualtype base;
 	char **name = &am_namep;
 	struct scope **funcscope = 0;
 	bool allowabstract = 0;
 	u64 len[NA] = {in_len0, in_len1};
-	bool cst[NA] = {in_const0, in_const1}, sg[NA] = {in_signed0, in_signed1}, has[NA] = {in_haslen0, in_haslen1};
+	bool cst[NA] = {in_const0, in_const1}, sg[NA] = {in_signed0, in_signed1}, has[NA] = {1, 1};
 	unsigned k;
 
 	g_n = V_N;   /* one CBMC run per list shape: a symbolic list length did not finish in 200 s */
@@ -146,6 +153,6 @@ harness(void)
 		am_lt[k].u.basic.issigned = sg[k];
 		g_len[k] = len[k]; g_const[k] = cst[k]; g_signed[k] = sg[k]; g_haslen[k] = has[k];
 	}
-	g_no_error = 0;
+	g_no_error = VALID;
 	CALLR(struct qualtype, PRE, POST, declarator(s, base, name, funcscope, allowabstract));
 }
